@@ -487,7 +487,7 @@ def build(repo):
 }''')
 
     # ---- insert ----
-    f = u.method(SRC, 'RdfStore', 'insert').D1().ret('r')
+    f = u.method(SRC, 'RdfStore', 'insert').D1().R6().ret('r')
     f.sub('E3', 'pub fn insert(&self,', 'pub fn insert(&mut self,')
     f.resub_opt('E3', r'[ \t]*let (?:mut )?(triples|subject_index|predicate_index|object_index) = self\.\1\.(?:read|write)\(\);\n', '')
     f.resub_opt('E3', r'\btriples\.contains\(&triple\)', 'primary_contains(&self.triples, &triple)')
@@ -513,7 +513,7 @@ def build(repo):
     f.ensures('set_semantics', 'r == self.triples.view().contains(*triple)')
 
     # ---- find ----
-    f = u.method(SRC, 'RdfStore', 'find').D1().ret('r')
+    f = u.method(SRC, 'RdfStore', 'find').D1().R6().ret('r')
     f.resub('E3', r'let index = self\.(subject_index|predicate_index|object_index)\.read\(\);', r'let index = &self.\1;', count=3)
     f.resub('E3', r'self\.triples\s*\.read\(\)', 'primary_elems(&self.triples)')
     f.R21('Arc<Triple>')
@@ -541,7 +541,7 @@ def build(repo):
 
     # ---- triples_with_{subject,predicate,object} ----
     for name, comp_enum, fld in (('subject', 'S', 'subject_index'), ('predicate', 'P', 'predicate_index')):
-        f = u.method(SRC, 'RdfStore', 'triples_with_' + name).D1().ret('r')
+        f = u.method(SRC, 'RdfStore', 'triples_with_' + name).D1().R6().ret('r')
         f.sub('E3', 'let index = self.%s.read();' % fld, 'let index = &self.%s;' % fld)
         f.requires('wf', 'self.store_wf()')
         f.ensures('exactly_the_matching_triples', 'forall|x: Arc<Triple>| #[trigger] r@.contains(x) <==> self.triples.view().contains(*x) && (*x).%s == *%s' % (name, name))
@@ -555,7 +555,7 @@ proof {
     assert(r__@ =~= b);
 }
 r__''' % (fld, name))
-    f = u.method(SRC, 'RdfStore', 'triples_with_object').D1().ret('r')
+    f = u.method(SRC, 'RdfStore', 'triples_with_object').D1().R6().ret('r')
     f.sub('E3', 'let index = self.object_index.read();', 'let index = &self.object_index;')
     f.resub('E3', r'self\s*\.triples\s*\.read\(\)', 'primary_elems(&self.triples)')
     f.R21('Arc<Triple>')
